@@ -77,6 +77,41 @@ def nsOf (m : Meta) : String := (mget m kNamespace).getD ""
 def visible (t : Tn) (ns : String) (m : Meta) : Bool :=
   mget m kTenantIdx == some t.idxStr && (ns == "" || nsOf m == ns)
 
+/-! ### client filters and the server-owned keys -/
+
+mutual
+/-- does a client filter name a server-owned key anywhere? -/
+def mentionsReserved : Filter → Bool
+  | .none => false
+  | .exact k _ => reserved k
+  | .range k _ => reserved k
+  | .inMatch k _ => reserved k
+  | .and fs => anyMentions fs
+  | .or fs => anyMentions fs
+  | .not none => false
+  | .not (some f) => mentionsReserved f
+def anyMentions : List Filter → Bool
+  | [] => false
+  | f :: fs => mentionsReserved f || anyMentions fs
+end
+
+mutual
+/-- the same filter as a client that cannot see the server-owned keys would have it evaluated:
+    every leaf on a reserved key behaves as "key absent" (never matches) -/
+def hideReserved : Filter → Filter
+  | .none => .none
+  | .exact k v => if reserved k then .or [] else .exact k v
+  | .range k b => if reserved k then .or [] else .range k b
+  | .inMatch k vs => if reserved k then .or [] else .inMatch k vs
+  | .and fs => .and (hideAll fs)
+  | .or fs => .or (hideAll fs)
+  | .not none => .not none
+  | .not (some f) => .not (some (hideReserved f))
+def hideAll : List Filter → List Filter
+  | [] => []
+  | f :: fs => hideReserved f :: hideAll fs
+end
+
 /-! ### counters -/
 
 def count (s : S) (t : Tn) : Nat := (alookup t.idx s.counts).getD 0
@@ -200,8 +235,10 @@ def batchDeleteIds (s : S) (t : Tn) (lids : List Nat) (ns : String) : S × Excep
 section
 variable (parse : String → Option Nat)
 
-/-- `BatchDelete` by filter: AND [tenant index, namespace?, client filter] over the stored metadata -/
+/-- `BatchDelete` by filter: a client filter naming a server-owned key is refused; otherwise
+    AND [tenant index, namespace?, client filter] over the stored metadata -/
 def batchDeleteFilter (s : S) (t : Tn) (f : Filter) (ns : String) : S × Except Err Nat :=
+  if mentionsReserved f then (s, .error .invalidArgument) else
   let gs := (s.docs.filter fun p => visible t ns p.2.md && matchesF parse f p.2.md).map (·.1)
   let (s', n) := deleteMany s gs
   (noteDeletes (decCount s' t n) t n, .ok n)
@@ -274,6 +311,7 @@ def search (s : S) (t : Tn) (rank : List Nat) (k : Nat) (ns : String) (f : Optio
   match validateSearch s.dim true k 0 (ns != "") f with
   | .error _ => .error .invalidArgument
   | .ok plan =>
+    if (f.map mentionsReserved).getD false then .error .invalidArgument else
     let cands := (rank.take plan.searchK).filterMap (passes parse s t ns f)
     .ok (cands.length, cands.take k)
 
